@@ -168,6 +168,8 @@ class World(object):
                 "timers": [c.at for c in clock.pending()],
                 "pending": sorted(h for h, v in self.dfr.items() if v[1] == "pending")}
         line = {"tid": self.tid, "n": self.n, "t": clock.now, "profile": self.profile, "stim": stim, "fx": list(self.fx), "post": post}
+        if self.meta:
+            line["meta"] = self.meta
         del self.fx[:]
         self.lines.append(line)
         if self.out is not None:
